@@ -176,6 +176,10 @@ func (fr *Frame) inlineCall(b *ssa.BasicBlock, st *State, callee *ssa.Function, 
 		}
 		c := fc.freshConst(k, fc.sortOfVar(k))
 		fc.addFact("true", sEq(c, acc))
+		if fc.parents == nil {
+			fc.parents = map[string][]string{}
+		}
+		fc.parents[c] = append(fc.parents[c], terms...)
 		st.vars[k] = c
 	}
 	// the call returns iff one of the return sites is reached
@@ -592,6 +596,10 @@ func (fr *Frame) execInvoke(b *ssa.BasicBlock, st *State, ins ssa.CallInstructio
 		}
 		c := fc.freshConst(k, fc.sortOfVar(k))
 		fc.addFact("true", sEq(c, acc))
+		if fc.parents == nil {
+			fc.parents = map[string][]string{}
+		}
+		fc.parents[c] = append(fc.parents[c], terms...)
 		fc.logWrite(k, "")
 		st.vars[k] = c
 	}
@@ -746,7 +754,7 @@ func (fr *Frame) execBuiltin(b *ssa.BasicBlock, st *State, bi *ssa.Builtin, args
 		case *types.Map:
 			fr.regMap(a.Typ)
 			m := fr.scalar(a)
-			row := sSel(fc.get(st, heapMapP(a.Typ)), m)
+			row := fc.rd(st, heapMapP(a.Typ), m)
 			r := sIte(sEq(m, "0"), "0", sApp("card", row))
 			fr.cardFacts(row)
 			return Val{S: r, Typ: resT}
@@ -813,8 +821,8 @@ func (fr *Frame) cardFacts(row string) {
 		return
 	}
 	fc.declSet[k] = true
-	fc.addFact("true", sApp(">=", sApp("card", row), "0"))
-	fc.addFact("true", fmt.Sprintf("(=> (= (card %s) 0) (forall ((kk Int)) (! (not (select %s kk)) :pattern ((select %s kk)))))", row, row, row))
+	fc.permFact(sApp(">=", sApp("card", row), "0"))
+	fc.permFact(fmt.Sprintf("(=> (= (card %s) 0) (forall ((kk Int)) (! (not (select %s kk)) :pattern ((select %s kk)))))", row, row, row))
 }
 
 func (fr *Frame) execAppend(b *ssa.BasicBlock, st *State, args []Val, resT types.Type, pos token.Pos) Val {
@@ -827,12 +835,7 @@ func (fr *Frame) execAppend(b *ssa.BasicBlock, st *State, args []Val, resT types
 		return fr.havocVal(resT, "append")
 	}
 	el := sl.Elem()
-	if isAggType(el) {
-		fc.unsupported("append on slice of aggregates")
-		return fr.havocVal(resT, "append")
-	}
-	h := heapElem(el)
-	fc.regVar(h, arr2Sort(sortOf(el)))
+	heaps := fr.elemHeaps(el)
 	// appending a string to []byte
 	srcIsString := false
 	if bt, ok := args[1].Typ.Underlying().(*types.Basic); ok && bt.Info()&types.IsString != 0 {
@@ -847,47 +850,58 @@ func (fr *Frame) execAppend(b *ssa.BasicBlock, st *State, args []Val, resT types
 	newLen := sApp("+", lenS, lenT)
 	fr.assume(b, sImp(inplace, sApp("<=", newLen, capS)))
 	fr.assume(b, sImp(sApp(">", newLen, capS), sNot(inplace)))
-	// appending nothing to a nil slice keeps nil; model: result id fresh
 	r := fc.freshConst("sl_app", "Int")
 	freshArr := fr.alloc(st, "arr")
 	arrR := fc.freshConst("app_arr", "Int")
 	offR := fc.freshConst("app_off", "Int")
-	fc.addFact("true", sAnd(sEq(arrR, sIte(inplace, arrS, freshArr)), sEq(offR, sIte(inplace, offS, "0"))))
-	heapBefore := fc.get(st, h)
-	oldRowS := sSel(heapBefore, arrS)
-	rowT := sSel(heapBefore, sApp("sl_arr", t))
+	fc.addFact("true", sEq(arrR, sIte(inplace, arrS, freshArr)))
 	offT := sApp("sl_off", t)
-	newRow := fc.freshConst("approw", arrSort(sortOf(el)))
-	var rowFacts []string
-	// prefix preserved
-	rowFacts = append(rowFacts, fmt.Sprintf("(forall ((i Int)) (! (=> (and (<= 0 i) (< i %s)) (= (select %s (+ %s i)) (select %s (+ %s i)))) :pattern ((select %s (+ %s i)))))", lenS, newRow, offR, oldRowS, offS, newRow, offR))
-	if n, known := fc.knownLen[t]; known && !srcIsString && n <= 8 {
-		for i := int64(0); i < n; i++ {
-			rowFacts = append(rowFacts, sEq(sSel(newRow, sApp("+", offR, lenS, fmt.Sprint(i))), sSel(rowT, sApp("+", offT, fmt.Sprint(i)))))
-		}
-	} else if !srcIsString {
-		rowFacts = append(rowFacts, fmt.Sprintf("(forall ((i Int)) (! (=> (and (<= 0 i) (< i %s)) (= (select %s (+ %s %s i)) (select %s (+ %s i)))) :pattern ((select %s (+ %s %s i)))))", lenT, newRow, offR, lenS, rowT, offT, newRow, offR, lenS))
-	}
-	// in place: everything outside the appended window is unchanged
-	rowFacts = append(rowFacts, sImp(inplace, fmt.Sprintf("(forall ((j Int)) (! (=> (or (< j (+ %s %s)) (>= j (+ %s %s))) (= (select %s j) (select %s j))) :pattern ((select %s j))))", offS, lenS, offS, newLen, newRow, oldRowS, newRow)))
-	fr.assume(b, sAnd(rowFacts...))
-	if b8, ok := el.Underlying().(*types.Basic); ok && b8.Kind() == types.Uint8 {
-		fr.specNative("bcat")
-		var tseq string
-		if srcIsString {
-			fr.declBytesOf()
-			tseq = sApp("strbytes", t)
+	_ = offR
+	// The result keeps the offset of the source slice also when a new array is allocated (offsets are not
+	// observable); its row equals the source row outside the appended window. The spare capacity of a
+	// reallocated array (zeroes in reality) is therefore not modelled.
+	fc.addFact("true", sEq(offR, offS))
+	for _, eh := range heaps {
+		h := eh.heap
+		heapBefore := fc.get(st, h)
+		fc.noteRead(heapBefore, arrS)
+		fc.noteRead(heapBefore, sApp("sl_arr", t))
+		oldRowS := sSel(heapBefore, arrS)
+		rowT := sSel(heapBefore, sApp("sl_arr", t))
+		var newRow string
+		if n, known := fc.knownLen[t]; known && !srcIsString && n <= 8 {
+			newRow = oldRowS
+			for i := int64(0); i < n; i++ {
+				newRow = sStore(newRow, sApp("+", offS, lenS, fmt.Sprint(i)), sSel(rowT, sApp("+", offT, fmt.Sprint(i))))
+			}
+			nr := fc.freshConst("approw", arrSort(eh.sort))
+			fc.addFact("true", sEq(nr, newRow))
+			newRow = nr
 		} else {
-			tseq = sApp("bseq", rowT, offT, lenT)
+			newRow = fc.freshConst("approw", arrSort(eh.sort))
+			var rowFacts []string
+			if !srcIsString {
+				rowFacts = append(rowFacts, fmt.Sprintf("(forall ((i Int)) (! (=> (and (<= 0 i) (< i %s)) (= (select %s (+ %s %s i)) (select %s (+ %s i)))) :pattern ((select %s (+ %s %s i)))))", lenT, newRow, offS, lenS, rowT, offT, newRow, offS, lenS))
+			}
+			rowFacts = append(rowFacts, fmt.Sprintf("(forall ((j Int)) (! (=> (or (< j (+ %s %s)) (>= j (+ %s %s))) (= (select %s j) (select %s j))) :pattern ((select %s j))))", offS, lenS, offS, newLen, newRow, oldRowS, newRow))
+			fr.assume(b, sAnd(rowFacts...))
 		}
-		fr.assume(b, sEq(sApp("bseq", newRow, offR, newLen), sApp("u_bcat", sApp("bseq", oldRowS, offS, lenS), tseq)))
-	}
-	fc.logWrite(h, arrR)
-	if activeLogs[fc] != nil {
-		// in a dry run the target row depends on 'inplace'; record both possibilities
+		if b8, ok := el.Underlying().(*types.Basic); ok && b8.Kind() == types.Uint8 {
+			fr.specNative("bcat")
+			var tseq string
+			if srcIsString {
+				fr.declBytesOf()
+				tseq = sApp("strbytes", t)
+			} else {
+				tseq = sApp("bseq", rowT, offT, lenT)
+			}
+			fr.assume(b, sEq(sApp("bseq", newRow, offS, newLen), sApp("u_bcat", sApp("bseq", oldRowS, offS, lenS), tseq)))
+		}
+		fc.logWrite(h, freshArr)
 		fc.logWrite(h, arrS)
+		fc.setDef(st, "true", h, sStore(heapBefore, arrR, newRow))
+		fc.parents[st.vars[h]] = append(fc.parents[st.vars[h]], heapBefore)
 	}
-	fc.setDef(st, "true", h, sStore(heapBefore, arrR, newRow))
 	capR := fc.freshConst("cap", "Int")
 	fr.assume(b, sAnd(sEq(sApp("sl_arr", r), arrR), sEq(sApp("sl_off", r), offR), sEq(sApp("sl_len", r), newLen),
 		sEq(sApp("sl_cap", r), sIte(inplace, capS, capR)), sApp(">=", capR, newLen), sApp("<=", capR, "4611686018427387904"),
